@@ -11,6 +11,14 @@
 #include "vh.h"
 #include <string>
 #include <optional>
+#include <map>
+#include <vector>
+#include <variant>
+#include "bitserializer/serialization_detail/errors_handling.h"
+#include "bitserializer/serialization_detail/serialization_options.h"
+#define private public
+#include "bitserializer/serialization_detail/serialization_context.h"
+#undef private
 #include "bitserializer/bit_serializer.h"
 using namespace BitSerializer;
 static const char* const M1 = "m1";
@@ -170,6 +178,24 @@ VH_EXPORT int vp_h17c_ctx2(const unsigned char* in, unsigned char* out) {
 	if (s0 == s1) return nkeys == 1 && cnt[s0] == 2 && cnt[1 - s0] == 0 && first[s0] == 'x' && second[s0] == 'y';
 	return nkeys == 2 && cnt[s0] == 1 && cnt[s1] == 1 && first[s0] == 'x' && first[s1] == 'y';
 }
+// ---- h17e: the grouping step alone, observed on the context's own map (no exception object, no OnFinishSerialization): two
+// errors over the paths "/a" and "/ab" (one is a prefix of the other) in every combination and order.
+VH_EXPORT int vp_h17e_ctxmap(const unsigned char* in, unsigned char* out) {
+	static const char* const paths[2] = { "/a", "/ab" };
+	SerializationOptions opt; opt.maxValidationErrors = 0;
+	SerializationContext ctx(opt);
+	unsigned s0 = in[0] & 1, s1 = in[1] & 1;
+	int rc = vh::outcome([&] {
+		ctx.AddValidationError(std::string(paths[s0]), std::string(1, 'x'));
+		ctx.AddValidationError(std::string(paths[s1]), std::string(1, 'y'));
+	});
+	size_t nkeys = ctx.mErrorsMap.size(); size_t cnt[2] = { 0, 0 };
+	for (int p = 0; p < 2; p++) { auto it = ctx.mErrorsMap.find(std::string(paths[p])); if (it != ctx.mErrorsMap.end()) cnt[p] = it->second.size(); }
+	out[0] = (unsigned char)rc; out[2] = (unsigned char)nkeys; out[3] = (unsigned char)cnt[0]; out[4] = (unsigned char)cnt[1];
+	if (rc != vh::OK) return 0;
+	if (s0 == s1) return nkeys == 1 && cnt[s0] == 2 && cnt[1 - s0] == 0;
+	return nkeys == 2 && cnt[0] == 1 && cnt[1] == 1;
+}
 // ---- h17c: the real SerializationContext: errors arrive for 3 paths out of {"/a", "/a/b", "/b", "/ab"} in a symbolic order
 VH_EXPORT int vp_h17c_context(const unsigned char* in, unsigned char* out) {
 	static const char* const paths[4] = { "/a", "/a/b", "/b", "/ab" };
@@ -207,6 +233,7 @@ VH_EXPORT int vp_h17c_context(const unsigned char* in, unsigned char* out) {
 //@ OBL {"name": "h17c_ctx2", "prop": "vp_h17c_ctx2", "tier": "open", "mem_gb": 36, "in": 2, "out": 8, "unwind": 6, "unwind_models": 8, "recursion": {"_M_erase": 3}, "unwind_fn": {"_M_erase": 4}, "fs": 32, "cap_s": 900, "backends": ["default", "kissat"], "bounds": "two errors over the paths /a and /ab in every combination and order", "desc": "real SerializationContext::AddValidationError / OnFinishSerialization: errors grouped by the exact path (a path that is a prefix of another one is a different field), arrival order kept"}
 //@ OBL {"name": "h17d_phone", "prop": "vp_h17d_phone", "in": 11, "out": 8, "unwind": 9, "fs": 32, "cap_s": 900, "backends": ["default", "kissat"], "bounds": "every string of length <= 7, min/max digits 0..8, plus required or not, loaded or not", "desc": "PhoneNumber validator: passes only well-formed numbers with min <= digits <= max (inclusive); plain numbers within the limits pass"}
 //@ OBL {"name": "h17d_email", "prop": "vp_h17d_email", "in": 11, "out": 8, "unwind": 9, "fs": 32, "cap_s": 900, "backends": ["default", "kissat"], "bounds": "every string of length <= 7, loaded or not", "desc": "Email validator: passes only local@domain shapes; letters@letters passes"}
+//@ OBL {"name": "h17e_ctxmap", "prop": "vp_h17e_ctxmap", "tier": "open", "mem_gb": 30, "in": 2, "out": 8, "unwind": 6, "unwind_models": 8, "recursion": {"_M_erase": 3}, "unwind_fn": {"_M_erase": 4}, "fs": 32, "cap_s": 900, "backends": ["default", "kissat"], "bounds": "two errors over the paths /a and /ab in every combination and order; the context's map is inspected directly (no exception is built)", "desc": "real SerializationContext::AddValidationError: errors grouped by the exact path (a path that is a prefix of another one is a different field)"}
 //@ OBL {"name": "h17c_context", "prop": "vp_h17c_context", "in": 8, "out": 8, "unwind": 10, "fs": 32, "cap_s": 3600, "bounds": "3 errors over the paths /a, /a/b, /b, /ab in every order and multiplicity (a path that is a prefix of another one included)", "desc": "SerializationContext: ValidationException lists exactly the failing fields, each with exactly its messages in arrival order", "tier": "open"}
 //@ OBL {"name": "h17a_required", "prop": "vp_h17a_required", "in": 8, "out": 8, "unwind": 4, "bounds": "every value, both loaded states", "desc": "Required fails iff the field was not loaded"}
 //@ OBL {"name": "h17a_range_i32", "prop": "vp_h17a_range_i32", "in": 25, "out": 8, "unwind": 4, "bounds": "every int32 value / min / max, both loaded states", "desc": "Range<int32>: inclusive bounds, passes when absent"}
@@ -224,6 +251,9 @@ VH_EXPORT int vp_h17c_context(const unsigned char* in, unsigned char* out) {
 //@ VEC h17d_email 0361406200000000000002
 //@ VEC h17d_email 07612e6240632e64000002
 
+//@ VEC h17e_ctxmap 0001
+//@ VEC h17e_ctxmap 0100
+//@ VEC h17e_ctxmap 0101
 //@ VEC h17c_ctx2 0001
 //@ VEC h17c_ctx2 0100
 //@ VEC h17c_ctx2 0101
